@@ -182,11 +182,15 @@ def check_send(run, cx, cfg):
     run.check(bad is None, 'bus.send', fn, cfg, bad or '', where=where(body))
 
 
-def check_misc(run, cx, cfg):
+def check_misc(run, cx, cfg, only=None):
+    """only: subset of {'pending', 'drop', 'exhaustion', 'next'} (None = all)"""
+    want = lambda g: only is None or g in only
     bi, fi, si = (cx.field_index(NODE, n) for n in ('buffer', 'frames_read', 'signal'))
     fn = NODE + '::<S>::pending_frames'
     body = cx.body(fn)
-    if body is None:
+    if not want('pending'):
+        pass
+    elif body is None:
         run.fail('bus.pending_frames', fn, cfg, 'function not found')
     else:
         ps = returning(cx.paths(fn))
@@ -198,6 +202,8 @@ def check_misc(run, cx, cfg):
             idx = [(k, e) for k, e in evs if 'core::ops::index::Index' in rp(e) and e['args'][0] == ('ref', self_loc(fi)) and key_arg_is(p, e['args'][1], ('param', 2))]
             ok = len(lens) == 1 and len(idx) == 1 and p['ret'] == ('op', 'Sub', ('ret', lens[0][0]), ('deref', ('ret', idx[0][0])))
         run.check(ok, 'bus.pending_frames', fn, cfg, 'must be buffer.len() - frames_read[&key]: [%s]' % '; '.join(describe_path(p) for p in ps), where=where(body))
+    if not want('drop'):
+        return check_misc_tail(run, cx, cfg, want)
     # Drop for Output exists and forwards its own key
     imp = [i for i in cx.facts.impls if i.get('trait') == 'core::ops::drop::Drop' and cx.facts.ty(i['self_ty']).get('path') == 'dasp_signal::bus::Output']
     run.check(len(imp) == 1, 'bus.drop-impl', 'impl Drop for Output', cfg, 'Output must implement Drop (a dropped output must stop pinning the backlog)')
@@ -272,10 +278,14 @@ def check_misc(run, cx, cfg):
         if not bad and kinds != {'nothing', 'done', 'trim', 'rebase'}:
             bad = 'lacks cases (has %s)' % sorted(kinds)
         run.check(bad is None, 'bus.drop_output', fn, cfg, bad or '', where=where(body))
+    check_misc_tail(run, cx, cfg, want)
+
+
+def check_misc_tail(run, cx, cfg, want):
     # is_exhausted of Output
     fn = '<dasp_signal::bus::Output<S> as dasp_signal::Signal>::is_exhausted'
     body = cx.body(fn)
-    if body is not None:
+    if body is not None and want('exhaustion'):
         pf = NODE + '::<S>::pending_frames'
         ps = returning(cx.paths(fn, stop_trait_methods=STOP, stop=[pf]))
         bad = None
@@ -304,7 +314,7 @@ def check_misc(run, cx, cfg):
     # Output::next forwards its own key
     fn = '<dasp_signal::bus::Output<S> as dasp_signal::Signal>::next'
     body = cx.body(fn)
-    if body is not None:
+    if body is not None and want('next'):
         nf = NODE + '::<S>::next_frame'
         ps = returning(cx.paths(fn, stop=[nf]))
         ok = False
